@@ -75,6 +75,52 @@ PROPS = {
         ],
         "not_covered": ["prove_all fan-in", "Vampire::prove", "STATUS regex", "--save-problems byte identity"],
     },
+    "C04": {
+        "units": [],
+        "bounded_only": True,
+        "bounded_checks": ["completion"],
+        "level": "exploration",
+        "min_obligations": 0,
+        "explanation": "No contract reaches completion.rs (outside Verus' subset; Kani does not complete on formula trees). Bounded stand-in only, on the compiled real code: "
+                       "the classical models of `translate --with completion` of the tau* theory of 36 small tight programs, over every interpretation of their predicates on the inner values, are exactly "
+                       "the brute-force stable models; non-completable theories are refused; completion with open input predicates is exercised end to end by `bounded external`.",
+        "assumptions": ["bounded: programs of the corpus only, atoms over {0,1,2,a}; oracle = /verif/bounded aspsem.rs (reference semantics) and hteval.rs; nothing is proved"],
+        "not_covered": ["programs outside the corpus", "infinite stable models"],
+    },
+    "C06": {
+        "units": [],
+        "bounded_only": True,
+        "bounded_checks": ["tptp"],
+        "level": "exploration",
+        "min_obligations": 0,
+        "explanation": "No contract reaches the TPTP formatter (Display code writing through core::fmt). Bounded stand-in only: ~3100 closed formulas are written by the real formatter as conjectures of "
+                       "external-equivalence problems (no simplification, no equivalence breaking), read back by an independent TFF reader under the standard interpretation of the preamble symbols and "
+                       "compared with the source formula in sampled interpretations.",
+        "assumptions": ["bounded: formulas of the corpus only; oracle = /verif/bounded tff.rs (TPTP reading) and hteval.rs; the preamble axioms are read as the standard interpretation, not re-derived"],
+        "not_covered": ["placeholders and renamed symbols", "formulas outside the corpus"],
+    },
+    "C14": {
+        "units": [],
+        "bounded_only": True,
+        "bounded_checks": ["rt_programs"],
+        "level": "exploration",
+        "min_obligations": 0,
+        "explanation": "No contract reaches the pest-generated parser. Bounded stand-in only: ~16000 programs, rules, body elements and terms accepted by the real parser are printed by the real formatter, "
+                       "parsed again and printed again: same tree, same text.",
+        "assumptions": ["bounded: texts of the corpus only; library API of the real crate"],
+        "not_covered": ["texts outside the corpus"],
+    },
+    "C15": {
+        "units": [],
+        "bounded_only": True,
+        "bounded_checks": ["rt_theories"],
+        "level": "exploration",
+        "min_obligations": 0,
+        "explanation": "No contract reaches the pest-generated parser. Bounded stand-in only: ~13000 formulas (and all their subformulas), theories, specifications, user guides, proof outlines and the "
+                       "printed output of the tau*, natural and mu translators are printed, parsed again and printed again: same tree, same text. Three genuine defects were found this way and repaired.",
+        "assumptions": ["bounded: texts of the corpus only; library API of the real crate"],
+        "not_covered": ["texts outside the corpus"],
+    },
     "C20": {
         "units": ["files"],
         "bounded_checks": ["files"],
@@ -484,6 +530,7 @@ def run_property(pid, cfg, tier, seed, bless=False, t0=None):
     for k in open_findings:
         if k.get("static"):
             assumptions.append("OPEN KNOWN FINDING (outside the contracts): " + k.get("what", "") + " — " + k.get("demo", ""))
+    primary = next((b for b in bounded_runs if (b.get("stats") or {}).get("evaluations")), None)
     ev = {
         "property_id": pid,
         "tier": tier,
@@ -515,6 +562,8 @@ def run_property(pid, cfg, tier, seed, bless=False, t0=None):
             "samples": samples,
             "unit_sha256": {u: r.get("unit_sha256") for u, r in results.items()},
             "undecided": undecided,
+            **({"evaluations": primary["stats"]["evaluations"], "distinct_nontrivial": primary["stats"].get("distinct_nontrivial", 0),
+                "rule": primary["stats"].get("rule", ""), "samples": primary["stats"].get("samples", []) or ["(none)"]} if cfg.get("bounded_only") and primary else {}),
         },
         "assumptions": assumptions,
         "wall_s": wall,
@@ -570,6 +619,8 @@ def run_property(pid, cfg, tier, seed, bless=False, t0=None):
             print(f"FAILING-INPUT {f['input']}: {f['detail'][:300]}")
         print(f"VIOLATION property={pid} replay={rp}" + ("" if bounded_fail else " no-failing-input-found"))
         return 1
+    if cfg.get("bounded_only") and any(b["status"] == "unavailable" for b in bounded_runs):
+        undecided.append("the bounded stand-in (the only check of this property) could not run: " + "; ".join(str(b.get("reason")) for b in bounded_runs if b["status"] == "unavailable")[:600])
     if undecided:
         for u in undecided:
             print(f"UNDECIDED property={pid} reason={u[:1500]}")
